@@ -1,0 +1,115 @@
+//go:build verif
+
+package comb
+
+// Contracts for the verification machinery in /verif (comment-only file; no code).
+
+// binom(n,k) is the binomial coefficient. It is uninterpreted in the VCs and
+// characterised only by the lemmas marked "by lean", which are proved from
+// Nat.choose in Lean/Mathlib (/verif/lemmas/Binom.lean is generated from these
+// statements on every run).
+//@ opaque binom(n int, k int) int
+
+//@ lemma binomZero(n int)
+//@   requires 0 <= n
+//@   ensures binom(n, 0) == 1
+//@   by lean
+//@   pattern binom(n, 0)
+
+//@ lemma binomGt(n int, k int)
+//@   requires 0 <= n && n < k
+//@   ensures binom(n, k) == 0
+//@   by lean
+//@   pattern binom(n, k)
+
+//@ lemma binomPos(n int, k int)
+//@   requires 0 <= k && k <= n
+//@   ensures binom(n, k) >= 1
+//@   by lean
+//@   pattern binom(n, k)
+
+//@ lemma binomSym(n int, k int)
+//@   requires 0 <= k && 0 <= n
+//@   ensures binom(n+k, k) == binom(n+k, n)
+//@   by lean
+
+// (m+1) * C(m,j) == C(m+1,j+1) * (j+1)
+//@ lemma binomStep(m int, j int)
+//@   requires 0 <= j && 0 <= m
+//@   ensures binom(m+1, j+1) * (j+1) == binom(m, j) * (m+1)
+//@   by lean
+
+//@ lemma binomPascal(n int, k int)
+//@   requires 0 <= n && 0 <= k
+//@   ensures binom(n+1, k+1) == binom(n, k) + binom(n, k+1)
+//@   by lean
+
+//@ lemma binomMono(n int, m int, k int)
+//@   requires 0 <= n && n <= m && 0 <= k
+//@   ensures binom(n, k) <= binom(m, k)
+//@   by lean
+//@   pattern binom(n, k), binom(m, k)
+
+// C(m,j) <= C(m+d, j+d)
+//@ lemma binomDiag(m int, j int, d int)
+//@   requires 0 <= j && j <= m && 0 <= d
+//@   ensures binom(m, j) <= binom(m+d, j+d)
+//@   by lean
+
+// C(n,k) >= C(64,32) for 32 <= k <= n/2
+//@ lemma binomCentral(n int, k int)
+//@   requires 32 <= k && 2*k <= n
+//@   ensures binom(n, k) >= 1832624140942590534
+//@   by lean
+//@   pattern binom(n, k)
+
+// "downward" forms with a plain trigger, used only for ground evaluation of
+// table entries (they would loop on symbolic terms)
+//@ lemma pascalDown(n int, k int)
+//@   requires 1 <= n && 1 <= k
+//@   ensures binom(n, k) == binom(n-1, k-1) + binom(n-1, k)
+//@   by smt using binomPascal
+//@   pattern binom(n, k)
+
+//@ lemma stepDown(n int, k int)
+//@   requires 1 <= n && 1 <= k
+//@   ensures binom(n, k) * k == binom(n-1, k-1) * n
+//@   by smt using binomStep
+//@   pattern binom(n, k)
+
+//@ lemma mulMono(a int, b int, c int, d int)
+//@   requires 0 <= a && a <= c && 0 <= b && b <= d
+//@   ensures a * b <= c * d
+//@   by smt
+
+// every row of the built-in table is Pascal's triangle
+//@ lemma smallTable()
+//@   ensures len(smallEntries) == 33
+//@   ensures forall! nn in 0..33: len(smallEntries[nn]) == nn/2 + 1
+//@   ensures forall! nn in 0..33: forall! kk in 0..nn/2+1: smallEntries[nn][kk] == binom(nn, kk)
+//@   by smt using pascalDown, binomZero, binomGt
+
+// both sides of every overflow threshold: maxSizes[k] = max{n : C(n,k)*k < 2^64}
+//@ lemma maxTable()
+//@   ensures len(maxSizes) == 32
+//@   ensures forall! kk in 1..32: binom(maxSizes[kk], kk) * kk < 18446744073709551616
+//@   ensures forall! kk in 1..32: binom(maxSizes[kk] + 1, kk) * kk >= 18446744073709551616
+//@   ensures forall! kk in 1..32: maxSizes[kk] >= 2 * kk
+//@   use forall! kk in 1..32: forall! j in 1..kk+1: stepDown(maxSizes[kk]-kk+j, j)
+//@   use forall! kk in 1..32: forall! j in 1..kk+1: stepDown(maxSizes[kk]+1-kk+j, j)
+//@   by smt using binomZero
+
+//@ func CoeffUint64
+//@   panics when binom(n, k) * min(k, n-k) >= 18446744073709551616
+//@   ensures result == binom(n, k)
+//@   opt lemmas=binomZero,binomGt,binomPos,binomMono,binomCentral,smallTable,maxTable
+//@   use binomSym(n-k, k)
+//@   loop 1
+//@     invariant 1 <= i && i <= k+1 && 1 <= k && k <= n - k && n <= 18446744073709551615
+//@     invariant k == min(old(k), old(n) - old(k)) && n == old(n)
+//@     invariant comb == binom(n-k+i-1, i-1)
+//@     invariant binom(n, k) * k < 18446744073709551616
+//@     use binomStep(n-k+i-1, i-1)
+//@     use binomDiag(n-k+i, i, k-i)
+//@     use mulMono(binom(n-k+i, i), i, binom(n, k), k)
+//@     decreases k + 1 - i
